@@ -509,7 +509,11 @@ def check_seam(case):
 def seam_cases():
     return [{"kind": k, "side": sd, "c0": c0, "c1": c1, "quadrant": q, "delta": d, "lat": la}
             for k in ("equ", "ecl") for sd in ("in", "out") for (c0, c1) in SEAM_PAIRS
-            for q in (0.0, 90.0, 180.0, 270.0) for d in SEAM_DELTAS for la in SEAM_LATS]
+            for q in (0.0, 90.0, 180.0, 270.0) for d in SEAM_DELTAS for la in SEAM_LATS] + \
+        [{"kind": k, "side": "out", "c0": c0, "c1": c1, "quadrant": q, "delta": 0.0, "lat": sg * (90.0 - dist)}
+         # ordinary stars that ARRIVE 1e-9 .. 1e-6 degree from the pole of the final epoch / ecliptic of date
+         for k in ("equ", "ecl") for (c0, c1) in SEAM_PAIRS for q in (0.0, 77.3, 161.9, 248.6, 333.1)
+         for sg in (1.0, -1.0) for dist in (1e-9, 3e-9, 4.4e-9, 5.2e-9, 2e-8, 1e-7, 1e-6)]
 
 
 def run_seams(block, ctx):
